@@ -612,8 +612,11 @@ def run_valuelevel(rep, prop_id, cases_fn, rng, tier, rule, assumptions, profile
     n = len(c.lines) - c.n_decl
     hyp = hypothesis_check(rep, c.lines[:c.n_decl], expect_unfit=tuple(
         f" {t['tid']} " for t in types if "arr_huge" in t["label"]))
+    import typelevel as _TL
+    drv = _TL.derive_reading_check(rep, types)
     rep.coverage = {
         "hypotheses_on_corpus": hyp,
+        "derive_output_vs_declaration": drv,
         "obligations": pl["obligations"],
         "discharged": pl["discharged"] if not pl["failures"] else min(pl["discharged"], max(pl["obligations"] - 1, 0)),
         "checker_cmd": f"cd lean && lake build MiniconfVerif.Props.{prop_id} && lake env lean MiniconfVerif/Audit/{prop_id}.lean",
